@@ -41,6 +41,13 @@ def same(a, b):
     if isinstance(a, int) and isinstance(b, int): return a == b
     if isinstance(a, int) or isinstance(b, int): return False
     return a.eq(b)
+def same_sem(eng, a, b):
+    """identity of terms, else equality implied by the path condition (an implementation may write the literal
+    delimiter it has just matched instead of the input character it came from)"""
+    if same(a, b): return True
+    if isinstance(a, int) and isinstance(b, int): return False
+    za = z3.BitVecVal(a, 32) if isinstance(a, int) else a; zb = z3.BitVecVal(b, 32) if isinstance(b, int) else b
+    return eng.holds(za == zb)
 
 def concretize(eng, chars, extra=None):
     m = eng.model(extra)
@@ -118,13 +125,14 @@ def make_run(chars_of, note):
         for v in oc:
             if i < len(chars) and same(v, chars[i].v): i += 1; continue
             if isinstance(v, int) and is_ws_int(v): continue
+            if i < len(chars) and same_sem(eng, v, chars[i].v): i += 1; continue
             # maybe the formatter dropped whitespace input chars (allowed): skip inputs provably whitespace
             j = i
-            while j < len(chars) and not same(v, chars[j].v):
+            while j < len(chars) and not same_sem(eng, v, chars[j].v):
                 cj = chars[j].v
                 if (is_ws_int(cj) if isinstance(cj, int) else eng.holds(is_ws_z3(cj))): j += 1
                 else: break
-            if j < len(chars) and same(v, chars[j].v): i = j + 1; continue
+            if j < len(chars) and same_sem(eng, v, chars[j].v): i = j + 1; continue
             ok = False; why = "output character %r is neither the next input character nor inserted whitespace" % (v,); break
         if ok:
             for c in chars[i:]:
